@@ -9,6 +9,7 @@ CONSTANTS
   TrackDist = TRUE
   TrackOperand = TRUE
   AdoptLists = FALSE
+  BookkeepFirst = FALSE
   CacheChecksCount = TRUE
 INVARIANT OperandIntact
 INVARIANT FreqExact
